@@ -44,6 +44,7 @@
 #endif
 #if USE_ZSTD
 # include <zstd.h>
+# include <zstd_errors.h>
 #endif
 
 #define SIG_LEN	8
@@ -499,7 +500,11 @@ diskdump_read_page(struct page_io *pio)
 				      fch.data, pd.size);
 		put_chunk_locked(ctx, &fch);
 		if (ZSTD_isError(ret))
-			return set_error(ctx, KDUMP_ERR_CORRUPT,
+			return set_error(ctx,
+					 ZSTD_getErrorCode(ret) ==
+					 ZSTD_error_memory_allocation
+					 ? KDUMP_ERR_SYSTEM
+					 : KDUMP_ERR_CORRUPT,
 					 "Decompression failed: %s",
 					 ZSTD_getErrorName(ret));
 		if (ret != get_page_size(ctx))
